@@ -348,18 +348,45 @@ def _array_literal(v: ast.AST) -> Optional[ast.List]:
 
 
 # ----------------------------------------------------------------------------------------- R-TILE-AXES
+_alias_nodes: dict[int, ast.AST] = {}
+
+
 def _check_tile(ctx, f: FuncInfo) -> None:
     rule = "R-TILE-AXES"
     df = DataFlow(f.node)
     tiles = [c for c in walk_no_nested(f.node) if isinstance(c, ast.Call) and last_attr(c) == "tile" and len(c.args) == 2
              and dotted(c.func) in ("np.tile", "xp.tile", "numpy.tile")]
     arr_t = [c for c in tiles if dotted(c.args[0]) in ("self.array", "self._array")]
-    thk_t = [c for c in tiles if dotted(c.args[0]) in ("self.slice_thickness", "self._slice_thickness")]
+    THK = ("self.slice_thickness", "self._slice_thickness")
+    thk_t = [c for c in tiles if dotted(c.args[0]) in THK]
+    # the thicknesses may be replicated by other operators: block-wise ones (sequence * n) are equivalent to
+    # np.tile, element-wise ones (np.repeat) pair slice i with the thickness of another slice
+    def _seq(e):
+        while isinstance(e, ast.Call) and dotted(e.func) in ("tuple", "list") and len(e.args) == 1:
+            e = e.args[0]
+        return e
+    if not thk_t:
+        for c in walk_no_nested(f.node):
+            if isinstance(c, ast.Call) and last_attr(c) == "repeat" and c.args and dotted(c.args[0]) in THK:
+                ctx.violation(rule, f"{f.qualname}:thickness order", f.loc(c),
+                              f"`{norm_text(c)[:70]}` repeats the slice thicknesses element-wise (a, a, b, b) while the "
+                              "array's slice axis is tiled block-wise (a, b, a, b): slice i of the tiled potential is "
+                              "paired with the thickness of another slice", key_detail="thickness-order")
+                return
+            if isinstance(c, ast.BinOp) and isinstance(c.op, ast.Mult):
+                for seq, cnt in ((c.left, c.right), (c.right, c.left)):
+                    if dotted(_seq(seq)) in THK and isinstance(seq, ast.Call):
+                        # tuple(thickness) * n  ==  np.tile(thickness, n): present it in the tile form
+                        thk_t.append(ast.copy_location(ast.Call(func=ast.Attribute(value=ast.Name(id="np", ctx=ast.Load()),
+                                                                                   attr="tile", ctx=ast.Load()),
+                                                                args=[_seq(seq), cnt], keywords=[]), c))
+                        _alias_nodes[id(thk_t[-1])] = c
     ctx.require(len(arr_t) == 1 and len(thk_t) == 1,
                 f"{f.qualname}: expected one np.tile of the array and one of the slice thicknesses "
                 f"(found {len(arr_t)}/{len(thk_t)})")
+    thk_site = _alias_nodes.get(id(thk_t[0]), thk_t[0])
     at_arr = df.cfg.node_of(_stmt_containing(f.node, arr_t[0])).idx
-    at_thk = df.cfg.node_of(_stmt_containing(f.node, thk_t[0])).idx
+    at_thk = df.cfg.node_of(_stmt_containing(f.node, thk_site)).idx
 
     def inline_tuple(e: ast.AST, at: int) -> Optional[ast.Tuple]:
         for _ in range(4):
@@ -429,14 +456,15 @@ def _check_tile(ctx, f: FuncInfo) -> None:
               f"np.tile repeats the last two array axes by ({r_x.key()}, {r_y.key()}) but the extent is scaled by "
               f"({factors[0].key()}, {factors[1].key()}): the tiled array no longer matches its declared extent/sampling",
               key_detail="array-vs-extent")
-    ctx.check(r_z == t_z, rule, f"{f.qualname}:array-vs-thickness", f.loc(thk_t[0]),
+    ctx.check(r_z == t_z, rule, f"{f.qualname}:array-vs-thickness", f.loc(thk_site),
               f"slice axis tiled {r_z.key()} times = slice_thickness tiled {t_z.key()} times",
               f"np.tile repeats the slice axis {r_z.key()} times but slice_thickness {t_z.key()} times: the number of "
               "slices and the number of thicknesses disagree", key_detail="array-vs-thickness")
     # the tiled pieces are what the new object is built from
     d_arr = Deps(df).deps(at_ctor, kws["array"])
     d_thk = Deps(df).deps(at_ctor, kws["slice_thickness"])
-    ctx.check(any(c is arr_t[0] for c in d_arr.calls) and any(c is thk_t[0] for c in d_thk.calls), rule,
+    thk_dep = any(c is thk_t[0] for c in d_thk.calls) or (thk_site is not thk_t[0] and at_thk in getattr(d_thk, "nodes", {at_thk}))
+    ctx.check(any(c is arr_t[0] for c in d_arr.calls) and thk_dep, rule,
               f"{f.qualname}:reconstruction", f.loc(ctor), "the new object receives the tiled array and thicknesses",
               "the reconstruction does not receive the tiled array / tiled slice thicknesses", key_detail="reconstruction")
 
